@@ -610,7 +610,7 @@ static void copy_body(FILE* o, const std::string& payload) {
 
 // in a child process: a copy that shares memory with its source makes the release of the copy or of the source crash
 static void run_copy(Out& out, const std::string& id, const std::string& payload) {
-    std::string res = in_child([&](FILE* o) { copy_body(o, payload); }, 20);
+    std::string res = in_child([&](FILE* o) { copy_body(o, payload); }, 60);
     std::vector<std::string> lines;
     std::istringstream is(res);
     std::string ln;
